@@ -437,13 +437,16 @@ theorem C09Lex_glue_qualified_r1c1 :
 example : lex cfgRc (render cfgRc [.num ['1'], .colon, .ident ['x'], .colon, .ref none rcAbs])
     = [.num ['1'], .colon, .ident ['x'], .colon, .ref none rcAbs] := by decide +kernel
 
-/-- **F26-r1c-name**: a name of the form `R<digits>C` (a valid identifier: LAMBDA parameter, LET
-    variable, defined name) followed by `+1` is read by the R1C1 lexer as the REFERENCE `R1C1`
-    (consume_reference_r1c1 takes `+1` as the column number): the stored text of `R1C+1` does not
-    lex back to identifier, plus, number.  Such names fail `tokOK` (`rcSafe`). -/
-theorem C09Lex_glue_r1c_name :
+/-- **F26-r1c-name** (repaired): a name of the form `R<digits>C` is a valid identifier (LAMBDA
+    parameter, LET variable, defined name).  In the pinned tree the R1C1 lexer read the stored text
+    `R1C+1` as the REFERENCE `R1C1` (consume_reference_r1c1 took `+1` as the column number), so
+    `=LET(R1C,5,R1C+1)` became `=LET(R1C,5,$A$1)` after save/load.  After the fix (an unbracketed row
+    or column starts with a digit) the text is read back as identifier, plus, number.  Such names
+    still fail `tokOK` (`rcSafe` is a sufficient condition): they are outside the theorem, inside the tie. -/
+theorem C09Lex_r1c_name_repaired :
     tokOK cfgRc (.ident "R1C".toList) = false ∧
-    lex cfgRc (render cfgRc [.ident "R1C".toList, .add, .num ['1']]) = [.ref none rcAbs] := by
+    lex cfgRc (render cfgRc [.ident "R1C".toList, .add, .num ['1']])
+      = [.ident "R1C".toList, .add, .num ['1']] := by
   decide +kernel
 
 end IronCalc.Formula
